@@ -159,7 +159,9 @@ class RTDC_HDF5(RTDCBase):
 
         config = Configuration()
         for key in h5attrs:
-            section, pname = key.split(":")
+            # only split at the first colon (user-defined keys may
+            # contain colons)
+            section, pname = key.split(":", 1)
             config[section][pname] = h5attrs[key]
         return config
 
